@@ -32,7 +32,8 @@ type Op struct {
 	L   int         `json:"l"` // limit
 	R   bool        `json:"r"` // reverse
 	ID  int         `json:"id"`
-	Res interface{} `json:"res"` // get: hex|null; has/restore: bool; range/iter: [][2]hex; snap: id; "panic:<msg>"
+	D   int         `json:"d,omitempty"` // kind "two": which of the two roots
+	Res interface{} `json:"res"`         // get: hex|null; has/restore: bool; range/iter: [][2]hex; snap: id; "panic:<msg>"
 }
 
 type Commit struct {
@@ -42,16 +43,19 @@ type Commit struct {
 	After    []KV     `json:"after"`
 	Reverted []KV     `json:"reverted"`
 	CodecOK  bool     `json:"codec_ok"`
+	DryOK    bool     `json:"dry_ok"`
 }
 
 type OpsCase struct {
-	K      string  `json:"k"`
-	Root   string  `json:"root"`
-	DB     []KV    `json:"db"`
-	Ops    []*Op   `json:"ops"`
-	Commit *Commit `json:"commit"`
-	Panic  string  `json:"panic,omitempty"`
-	Close  string  `json:"close,omitempty"` // error class of DB.Close (leaked iterators)
+	K       string  `json:"k"`
+	Root    string  `json:"root"`
+	DB      []KV    `json:"db"`
+	Ops     []*Op   `json:"ops"`
+	Commit  *Commit `json:"commit"`
+	Ops2    []*Op   `json:"ops2,omitempty"` // kind "ops2": continued use of the same Database objects after Commit
+	Commit2 *Commit `json:"commit2,omitempty"`
+	Panic   string  `json:"panic,omitempty"`
+	Close   string  `json:"close,omitempty"` // error class of DB.Close (leaked iterators)
 }
 
 type ScanCase struct {
@@ -150,7 +154,37 @@ func scribbleKVs(l []db.KeyValue) {
 	}
 }
 
+// longPool, when set, makes rkey produce framework-like keys: 6-byte store prefix + 32-byte key (38 bytes), near
+// neighbours of them (last byte changed, one byte shorter, one byte longer) and their short prefixes.
+var longPool [][]byte
+
+func setLongPool(r *hx.Rng) {
+	p6 := []byte{0x3c, 0x46, 0x9e, 0x9d, 0x00, 0x00}
+	mk := func() []byte {
+		k := append([]byte{}, p6...)
+		for i := 0; i < 32; i++ {
+			k = append(k, []byte{0x00, 0x61, 0xff, byte(r.Intn(256))}[r.Intn(4)])
+		}
+		return k
+	}
+	k0, k2 := mk(), mk()
+	k1 := append([]byte{}, k0...)
+	k1[37]++
+	k3 := append([]byte{}, k0[:37]...)
+	k4 := append(append([]byte{}, k0...), 0x00)
+	k5 := append(append([]byte{}, p6[:4]...), 0x80, 0x00)
+	k5 = append(k5, k2[6:]...)
+	longPool = [][]byte{k0, k1, k2, k3, k4, k5}
+}
+
 func rkey(r *hx.Rng, maxLen int) []byte {
+	if longPool != nil && r.Intn(5) != 0 {
+		k := longPool[r.Intn(len(longPool))]
+		if r.Intn(4) == 0 { // a prefix: store prefix, module prefix, or a cut inside the 32-byte part
+			k = k[:[]int{0, 4, 6, 7, 20, 37}[r.Intn(6)]]
+		}
+		return append([]byte{}, k...)
+	}
 	n := r.Intn(maxLen + 1)
 	k := make([]byte, n)
 	for i := range k {
@@ -213,10 +247,19 @@ func genDB(r *hx.Rng, root []byte) []KV {
 	return sortKV(out)
 }
 
-func genOps(r *hx.Rng, n int) []*Op {
+type genState struct {
+	views     int
+	snapCount []int
+	minSnap   []int // per view: snapshot ids below this were taken before a Commit and are not restored any more
+}
+
+func genOps(r *hx.Rng, n int, st *genState) []*Op {
 	ops := []*Op{}
-	views := 1
-	snapCount := []int{0}
+	if st.views == 0 {
+		st.views, st.snapCount = 1, []int{0}
+	}
+	views, snapCount := st.views, st.snapCount
+	defer func() { st.views, st.snapCount = views, snapCount }()
 	for i := 0; i < n; i++ {
 		v := r.Intn(views)
 		o := &Op{V: v}
@@ -244,10 +287,17 @@ func genOps(r *hx.Rng, n int) []*Op {
 			snapCount[v]++
 		case x < 86:
 			o.O = "restore"
-			if snapCount[v] > 0 && r.Intn(5) != 0 {
-				o.ID = r.Intn(snapCount[v])
+			lo := 0
+			if v < len(st.minSnap) {
+				lo = st.minSnap[v]
+			}
+			if snapCount[v] > lo && r.Intn(5) != 0 {
+				o.ID = lo + r.Intn(snapCount[v]-lo)
 			} else {
-				o.ID = r.Intn(4)
+				o.ID = snapCount[v] + r.Intn(4) // no such snapshot
+				if lo == 0 {
+					o.ID = r.Intn(4)
+				}
 			}
 		case x < 88:
 			o.O, o.ID = "delsnap", r.Intn(3)
@@ -275,39 +325,24 @@ func genOps(r *hx.Rng, n int) []*Op {
 }
 
 // runOps executes the inputs of c on the real code and fills in the observations.
-func runOps(c *OpsCase) {
-	d, err := db.NewInMemoryDB()
-	if err != nil {
-		panic(err)
-	}
-	c.Close = ""
-	defer func() {
-		if err := d.Close(); err != nil {
-			c.Close = closeClass(err)
-		}
-	}()
-	fill(d, c.DB)
-	root := diffdb.New(d, unhex(c.Root))
-	views := []*diffdb.Database{root}
-	for _, o := range c.Ops {
+// execOps runs ops on the views (created views are appended); it answers the panic site ("" if none).
+func execOps(ops []*Op, views *[]*diffdb.Database) (site string) {
+	for _, o := range ops {
 		o.Res = nil
 	}
-	c.Commit, c.Panic = nil, ""
-	for _, o := range c.Ops {
-		stop := false
+	for _, o := range ops {
 		func() {
 			defer func() {
 				if e := recover(); e != nil {
 					o.Res = fmt.Sprintf("panic:%v", e)
-					c.Panic = "op:" + o.O
-					stop = true
+					site = "op:" + o.O
 				}
 			}()
-			if o.V >= len(views) {
+			if o.V >= len(*views) {
 				o.Res = "badview"
 				return
 			}
-			s := views[o.V]
+			s := (*views)[o.V]
 			switch o.O {
 			case "get":
 				k := unhex(o.A)
@@ -348,52 +383,145 @@ func runOps(c *OpsCase) {
 			case "delsnap":
 				s.DeleteSnapshot(o.ID)
 			case "view":
-				views = append(views, s.WithPrefix(unhex(o.A)))
+				*views = append(*views, s.WithPrefix(unhex(o.A)))
 			default:
 				panic("unknown op " + o.O)
 			}
 		}()
-		if stop {
-			return
+		if site != "" {
+			return site
 		}
 	}
-	func() {
-		defer func() {
-			if e := recover(); e != nil {
-				c.Panic = fmt.Sprintf("commit:%v", e)
-			}
-		}()
-		cm := &Commit{Added: []string{}, Updated: []KV{}, Deleted: []KV{}}
-		batch := d.NewBatch()
-		diff := root.Commit(batch)
-		d.Write(batch)
-		cm.After = dump(d)
-		for _, k := range diff.Added {
-			cm.Added = append(cm.Added, hx2(k))
+	return ""
+}
+
+func diffString(df *diffdb.Diff) string {
+	parts := []string{}
+	for _, k := range df.Added {
+		parts = append(parts, "a"+hx2(k))
+	}
+	for _, kv := range df.Updated {
+		parts = append(parts, "u"+hx2(kv.Key)+"="+hx2(kv.Value))
+	}
+	for _, kv := range df.Deleted {
+		parts = append(parts, "d"+hx2(kv.Key)+"="+hx2(kv.Value))
+	}
+	sort.Strings(parts)
+	return strings.Join(parts, ",")
+}
+
+// doCommit: Commit -> Write -> dump; with revert also RevertDiff (through the diff codec, as consensus/execute.go) -> Write -> dump.
+func doCommit(d *db.DB, root *diffdb.Database, revert bool) (cm *Commit, site string) {
+	defer func() {
+		if e := recover(); e != nil {
+			site = fmt.Sprintf("commit:%v", e)
 		}
-		sort.Slice(cm.Added, func(i, j int) bool { return string(unhex(cm.Added[i])) < string(unhex(cm.Added[j])) })
-		for _, kv := range diff.Updated {
-			cm.Updated = append(cm.Updated, KV{hx2(kv.Key), hx2(kv.Value)})
-		}
-		for _, kv := range diff.Deleted {
-			cm.Deleted = append(cm.Deleted, KV{hx2(kv.Key), hx2(kv.Value)})
-		}
-		sortKV(cm.Updated)
-		sortKV(cm.Deleted)
-		// as in consensus/execute.go: the diff is stored encoded and decoded before RevertDiff
-		decoded := &diffdb.Diff{}
-		if err := decoded.Decode(diff.Encode()); err != nil {
-			c.Panic = "diff-decode:" + err.Error()
-			c.Commit = cm
-			return
-		}
-		cm.CodecOK = len(decoded.Added) == len(diff.Added) && len(decoded.Updated) == len(diff.Updated) && len(decoded.Deleted) == len(diff.Deleted)
+	}()
+	cm = &Commit{Added: []string{}, Updated: []KV{}, Deleted: []KV{}}
+	// a dry-run Commit into a batch that is never written (framework ABIHandler.Commit with DryRun) must leave the staged
+	// state untouched: the real Commit right after returns the same diff
+	dry := root.Commit(d.NewBatch())
+	batch := d.NewBatch()
+	diff := root.Commit(batch)
+	cm.DryOK = diffString(dry) == diffString(diff)
+	d.Write(batch)
+	cm.After = dump(d)
+	for _, k := range diff.Added {
+		cm.Added = append(cm.Added, hx2(k))
+	}
+	sort.Slice(cm.Added, func(i, j int) bool { return string(unhex(cm.Added[i])) < string(unhex(cm.Added[j])) })
+	for _, kv := range diff.Updated {
+		cm.Updated = append(cm.Updated, KV{hx2(kv.Key), hx2(kv.Value)})
+	}
+	for _, kv := range diff.Deleted {
+		cm.Deleted = append(cm.Deleted, KV{hx2(kv.Key), hx2(kv.Value)})
+	}
+	sortKV(cm.Updated)
+	sortKV(cm.Deleted)
+	decoded := &diffdb.Diff{}
+	if err := decoded.Decode(diff.Encode()); err != nil {
+		return cm, "diff-decode:" + err.Error()
+	}
+	cm.CodecOK = len(decoded.Added) == len(diff.Added) && len(decoded.Updated) == len(diff.Updated) && len(decoded.Deleted) == len(diff.Deleted)
+	if revert {
 		batch2 := d.NewBatch()
 		root.RevertDiff(batch2, decoded)
 		d.Write(batch2)
 		cm.Reverted = dump(d)
-		c.Commit = cm
+	}
+	return cm, ""
+}
+
+// runOps executes the inputs of c on the real code and fills in the observations.
+// K = "ops": ops, Commit, write, RevertDiff, write.  K = "ops2": ops, Commit, write, then the SAME Database objects keep being
+// used (ops2) over the now changed store, second Commit, write, RevertDiff of the second diff, write.
+func runOps(c *OpsCase) {
+	d, err := db.NewInMemoryDB()
+	if err != nil {
+		panic(err)
+	}
+	c.Close = ""
+	defer func() {
+		if err := d.Close(); err != nil {
+			c.Close = closeClass(err)
+		}
 	}()
+	fill(d, c.DB)
+	root := diffdb.New(d, unhex(c.Root))
+	views := []*diffdb.Database{root}
+	c.Commit, c.Commit2, c.Panic = nil, nil, ""
+	if c.Panic = execOps(c.Ops, &views); c.Panic != "" {
+		return
+	}
+	if c.Commit, c.Panic = doCommit(d, root, c.K != "ops2"); c.Panic != "" || c.K != "ops2" {
+		return
+	}
+	if c.Panic = execOps(c.Ops2, &views); c.Panic != "" {
+		return
+	}
+	c.Commit2, c.Panic = doCommit(d, root, true)
+}
+
+// TwoCase: two independent diffdb.Database roots (own caches) over ONE store, used interleaved; nothing reaches the store
+// before both are committed (root 0 first). Op.D selects the root.
+type TwoCase struct {
+	K       string    `json:"k"`
+	Roots   [2]string `json:"roots"`
+	DB      []KV      `json:"db"`
+	Ops     []*Op     `json:"ops"`
+	Commits []*Commit `json:"commits"`
+	Panic   string    `json:"panic,omitempty"`
+	Close   string    `json:"close,omitempty"`
+}
+
+func runTwo(c *TwoCase) {
+	d, err := db.NewInMemoryDB()
+	if err != nil {
+		panic(err)
+	}
+	c.Close, c.Panic, c.Commits = "", "", nil
+	defer func() {
+		if err := d.Close(); err != nil {
+			c.Close = closeClass(err)
+		}
+	}()
+	fill(d, c.DB)
+	roots := [2]*diffdb.Database{diffdb.New(d, unhex(c.Roots[0])), diffdb.New(d, unhex(c.Roots[1]))}
+	views := [2][]*diffdb.Database{{roots[0]}, {roots[1]}}
+	for _, o := range c.Ops {
+		if site := execOps([]*Op{o}, &views[o.D&1]); site != "" {
+			c.Panic = site
+			return
+		}
+	}
+	for i := 0; i < 2; i++ {
+		cm, site := doCommit(d, roots[i], false)
+		c.Commits = append(c.Commits, cm)
+		if site != "" {
+			c.Panic = site
+			return
+		}
+	}
 }
 
 func closeClass(err error) string {
@@ -446,6 +574,7 @@ func main() {
 	nOps := flag.Int("ops", 1500, "random operation-sequence cases")
 	nScan := flag.Int("scan", 1500, "random db scan cases")
 	nBdb := flag.Int("bdb", 300, "random batchdb cases")
+	nTwo := flag.Int("two", 150, "random two-roots-over-one-store cases")
 	maxLen := flag.Int("len", 22, "max operations per sequence")
 	in := flag.String("in", "", "replay: jsonl of cases to re-execute")
 	corpus := flag.String("corpus", "", "directory of corpus jsonl files to run first")
@@ -475,7 +604,14 @@ func main() {
 			if err := json.Unmarshal(line, &probe); err != nil {
 				panic(err)
 			}
-			if probe.K == "bdb" {
+			if probe.K == "two" {
+				c := &TwoCase{}
+				if err := json.Unmarshal(line, c); err != nil {
+					panic(err)
+				}
+				runTwo(c)
+				o.Put(c)
+			} else if probe.K == "bdb" {
 				c := &BdbCase{}
 				if err := json.Unmarshal(line, c); err != nil {
 					panic(err)
@@ -520,8 +656,43 @@ func main() {
 	roots := [][]byte{{}, {0x0a}, {0x61}, {0xff}, {0x61, 0xff}, {0x0a}}
 	for i := 0; i < *nOps; i++ {
 		root := roots[r.Intn(len(roots))]
-		c := &OpsCase{K: "ops", Root: hx2(root), DB: genDB(r, root), Ops: genOps(r, 3+r.Intn(*maxLen))}
+		longPool = nil
+		if r.Intn(8) == 0 {
+			setLongPool(r)
+		}
+		st := &genState{}
+		c := &OpsCase{K: "ops", Root: hx2(root), DB: genDB(r, root), Ops: genOps(r, 3+r.Intn(*maxLen), st)}
+		if r.Intn(6) == 0 { // the same Database objects keep being used after Commit
+			// restoring, after a Commit, a snapshot taken before it is meaningless (the snapshot does not know what reached
+			// the store): phase 2 only restores snapshots taken in phase 2
+			st.minSnap = append([]int{}, st.snapCount...)
+			c.K, c.Ops2 = "ops2", genOps(r, 2+r.Intn(*maxLen/2+1), st)
+		}
 		runOps(c)
+		o.Put(c)
+	}
+	longPool = nil
+	for i := 0; i < *nTwo; i++ {
+		// two roots over one store: mostly disjoint key spaces, sometimes equal or nested prefixes
+		pr := [][2][]byte{{{0x0a}, {0x0b}}, {{0x61}, {0xff}}, {{0x0a, 0x61}, {0x0a, 0xff}}, {{0x0a}, {0x0a}}, {{0x0a}, {0x0a, 0x61}}, {{}, {0x61}}}[r.Intn(6)]
+		c := &TwoCase{K: "two", Roots: [2]string{hx2(pr[0]), hx2(pr[1])}, DB: []KV{}}
+		m := map[string]KV{}
+		for _, kv := range append(genDB(r, pr[0]), genDB(r, pr[1])...) {
+			m[kv[0]] = kv
+		}
+		for _, kv := range m {
+			c.DB = append(c.DB, kv)
+		}
+		sortKV(c.DB)
+		sts := [2]*genState{{}, {}}
+		for j, n := 0, 4+r.Intn(*maxLen); j < n; j++ {
+			dsel := r.Intn(2)
+			for _, op := range genOps(r, 1, sts[dsel]) {
+				op.D = dsel
+				c.Ops = append(c.Ops, op)
+			}
+		}
+		runTwo(c)
 		o.Put(c)
 	}
 	for i := 0; i < *nBdb; i++ {
